@@ -72,6 +72,17 @@ def gen_one(rng, tier):
     # assignment through the sub-map object, a sub-map cleared) after a
     # snapshot of the root was taken: the next snapshot shows the tree as it
     # is then
+    if rng.random() < 0.2:
+        # one sub-map object reachable in two places of the tree, changed
+        # through one of them after a snapshot of the whole was taken
+        nested = [op[1] for op in ops if op[0] == 'set' and '/' in op[1]]
+        src = rng.choice(nested).rsplit('/', 1)[0] if nested \
+            else gen_key(rng, names, 2)
+        dst = gen_key(rng, names, 3)
+        ops.append(['mount', src, dst])
+        for _ in range(rng.randint(1, 2)):
+            ops.append(['set_via', rng.choice([src, dst]),
+                        gen_key(rng, names, 2), 'h'])
     for _ in range(rng.choice([0, 0, 1, 2])):
         at = rng.randrange(len(ops) + 1)
         if rng.random() < 0.7:
@@ -116,6 +127,9 @@ def run_case(case):
             res.tags['earlier_snapshot_taken'].add(True)
         if op[0] == 'set':
             drv.set(op[1], op[2])
+        elif op[0] == 'mount':
+            if drv.mount(op[1], op[2]):
+                res.tags['map_mounted_twice'].add(True)
         elif op[0] in ('set_via', 'clear'):
             drv.root.get_static_map()       # taken and dropped
             if op[0] == 'set_via':
